@@ -101,8 +101,12 @@ def gen_cases(rng, n):
         else:
             req = {"command": "uiHeartbeat", "version": 5, "udValue": gen.rbytes(rng, 32).hex()}
             r = rng.random()
-            if r < 0.6:
+            if r < 0.45:
                 d.mode, d.after_exit, meta["modes"], meta["start"] = 3, [4, 3], "ok", 3
+            elif r < 0.6:
+                # the exit from the UI heartbeat lands somewhere that is neither signer nor UI heartbeat
+                d.mode, d.after_exit, meta["start"] = 3, [4, rng.choice([2, 5, 0xFF, 0])], 3
+                meta["modes"] = "lands-elsewhere"
             elif r < 0.7:
                 d.mode, d.after_exit, meta["modes"], meta["start"] = 4, None, "ok", 4
             elif r < 0.8:
